@@ -4,13 +4,6 @@ import Stackage.Model.Traverse
 namespace Stackage.Driver
 open Stackage
 
-/-- the harness's `Describe` cannot name an installed closure (only its presence is observable): print without them -/
-partial def stripPol : Val → Val
-  | .stk f c xs => .stk f { c with ppf := none, vpf := none, rpf := none, eqf := none, umf := none, maf := none, evl := none } (xs.map stripPol)
-  | .cnd f c kw op ex => .cnd f { c with ppf := none, vpf := none, rpf := none, eqf := none, umf := none, maf := none, evl := none } kw op (stripPol ex)
-  | .anys xs => .anys (xs.map stripPol)
-  | v => v
-
 def runPaths (payload : String) : String × String × String :=
   match payload.splitOn " | " with
   | [tree, ops] =>
